@@ -35,7 +35,11 @@ TRUSTED = [
     'out-of-bounds accesses are explicit `oob` outcomes of the models; on the implementation they are observed by ASan (heap '
     'blocks of exactly the advertised size) and UBSan (-fsanitize=bounds on the constant tables)',
 ]
-ASSUMPTIONS = ['position + size < 2^64 in Serializer/Deserializer (size_t wrap of pos_+need is not modelled)',
+ASSUMPTIONS = ['Serializer/Deserializer: buffer sizes below 2^64; the size_t comparison need <= size - pos is modelled (Ser.checkSizeW) and proved equal '
+               'to pos + need <= size under the invariant pos <= size (C19_des_checksize_exact); need sizes up to SIZE_MAX are driven through the real code',
+               'url.cpp keeps one string position in an int (url.cpp:208-217): strings of 2^31 bytes are out of reach, positions are naturals in the model',
+               'MD5 life cycle: the abort of update/finish on a finished object is the TBOX_ASSERT of debug builds (NDEBUG undefined, as the harness and the '
+               'repository default build it); the release-build behaviour is theorem-only (C19_md5_finish_twice_release)',
                'RawDataToHexStr length < 65536 (its uint16_t length parameter)',
                'std::isprint in the "C" locale; glibc answers 0 for negative char values',
                'MD5: one update call is shorter than 2^61 bytes (plain_text_len << 3 in a 64-bit size_t); the >= 512 MiB single-update '
@@ -46,14 +50,21 @@ RULE = ('one case = 1..12 codec operations from props/C19/plugin.py gen(): encod
         'length 0..70 (all 256 byte values), capacities exact/one-short/zero/roomy, 64-bit values around every length boundary '
         '±2, serializer field sequences, MD5 update splits, AES key/block pairs, plus a malformed stream; non-trivial = the case '
         'contains at least one decoder/parse op on invalid or boundary input, an exact-capacity buffer op, or a multi-piece MD5 / '
-        'multi-field serializer op (tags in the B lines); distinct = distinct op text')
+        'multi-field serializer op (tags in the B lines); distinct = distinct op text. Round 7: memory-placement family (every pointer-taking '
+        'entry point at alignments 0..7, right-aligned against the ASan redzone and left-aligned after a canary, lengths 0..5,7..9,15..17,63..65, '
+        'suffix @<R|L><in><out>; a third of the random cases carry a random placement), width families (ports around 2^16 / 2^31 / 2^32 / 2^63 / '
+        '2^64, signed texts; (de)serializer sizes around 2^31 / 2^32 / 2^63 / 2^64; signed and floating stream operators), law families '
+        '(chained CRC, MD5 update/finish scripts run in a forked child so that the abort is observed, AES re-keying, Base64 C-string overloads)')
 LEVEL_TEXT = ('Lean 4 theorems over hand-written models of the nine codec sources, all for every input: round trips (Base64 both '
               'decoders, scalable integer for every 64-bit value and capacity, hex strings all three readers, serializer for every '
               'field sequence, URL both modes, AES-128 invcipher∘cipher), advertised sizes, no out-of-bounds outcome for every input '
               'and capacity, rejection of every non-alphabet Base64 character, and equality with independently written definitions '
               'of the published algorithms: Base64 encoder = RFC 4648, table-driven CRC-16/32 = bitwise CRC, checksums = '
               'one\'s-complement sums, MD5 (any split into updates) = RFC 1321 (Spec.md5), AES-128 cipher and inverse cipher = '
-              'FIPS-197 (Spec.aesCipher / aesInvCipher); tables regenerated from the source on every run; tied to the code on every '
+              'FIPS-197 (Spec.aesCipher / aesInvCipher), also after setKey on any object; chained CRC law (and the counterexample to the naive one), '
+              'MD5 object life cycle for every history and exactness of its 64-bit bit counter, signed stream operators, size_t bounds check = '
+              'mathematical one, Base64 C-string overloads, URL port: accepted range, modulo-65536 narrowing as coded, print/parse round trip; '
+              'tables regenerated from the source on every run; tied to the code on every '
               'run by differential execution under ASan+UBSan')
 LEVEL_NOTE = ('trusted: Lean kernel, hand-written models + differential tie (coverage bounded by the generator, measured in '
               'evidence), my transcription of the standards in Spec.lean (checked against the RFC/FIPS test vectors and python '
@@ -186,8 +197,14 @@ def gen_field(rng):
         return 'i%d:%d' % (w, v)
     if k < 0.7:
         return 'r:%s' % hx(rbytes(rng, rng.randrange(0, 9)))
-    if k < 0.9:
+    if k < 0.8:
         return 'p:%s' % hx(rbytes(rng, rng.choice([1, 2, 4, 8, 3])))
+    if k < 0.88:
+        w = rng.choice([1, 2, 4, 8]); half = 1 << (8 * w - 1)
+        return 's%d:%d' % (w, rng.choice([-half, -1, half - 1, rng.randrange(-half, half)]))
+    if k < 0.93:
+        w = rng.choice([4, 8])
+        return 'f%d:%s' % (w, hx(rbytes(rng, w)))
     return 'e:%s' % rng.choice('bl')
 
 
@@ -222,7 +239,8 @@ def gen_ser(rng, ops):
         elif k < 0.6: ops.append('des.bytes %d' % rng.randrange(0, 6))
         elif k < 0.7: ops.append('des.pod %d' % rng.choice([1, 2, 4, 8, 3]))
         elif k < 0.78: ops.append('des.nocopy %d' % rng.randrange(0, 6))
-        elif k < 0.86: ops.append('des.skip %d' % rng.choice([0, 1, 2, n, n + 1]))
+        elif k < 0.82: ops.append('des.skip %d' % rng.choice([0, 1, 2, n, n + 1, 2 ** 64 - 1, 2 ** 64 - n, 2 ** 63]))
+        elif k < 0.86: ops.append('des.check %d' % rng.choice([0, 1, n, n + 1, 2 ** 64 - 1, 2 ** 63]))
         elif k < 0.94: ops.append('des.setpos %d' % rng.choice([0, 1, max(n - 1, 0), n, n + 1]))
         else: ops.append('des.endian %s' % rng.choice('bl'))
 
@@ -287,6 +305,37 @@ def gen_aes(rng, ops):
     blk = rbytes(rng, 16) if rng.random() < 0.8 else bytes([rng.choice([0, 0xff])] * 16)
     ops.append('%s %s %s' % (rng.choice(['aes.enc', 'aes.dec', 'aes.rt']), hx(key), hx(blk)))
 
+
+
+def gen_misc(rng, ops):
+    r = rng.random()
+    if r < 0.2:
+        x = rbytes(rng, rng.randrange(0, 40)); cut = rng.randrange(len(x) + 1)
+        if rng.random() < 0.5: ops.append('crc32.chain %s %s %d' % (hx(x[:cut]), hx(x[cut:]), rng.choice([0xffffffff, 0, rng.getrandbits(32)])))
+        else: ops.append('crc16.chain %s %s %d' % (hx(x[:cut]), hx(x[cut:]), rng.choice([0xffff, 0, rng.getrandbits(16)])))
+    elif r < 0.35:
+        steps = []
+        for _ in range(rng.randrange(1, 6)):
+            steps.append('f' if rng.random() < 0.3 else 'u:' + hx(rbytes(rng, rng.choice([0, 1, 55, 56, 63, 64, 65, rng.randrange(0, 130)]))))
+        ops.append('md5.seq ' + ' '.join(steps))
+    elif r < 0.5:
+        k1 = rbytes(rng, 16); k2 = rbytes(rng, 16)
+        blks = ' '.join(hx(rbytes(rng, 16)) for _ in range(rng.randrange(1, 4)))
+        ops.append('aes.seq %s %s %s' % (rng.choice([hx(k1), '-']), hx(k2), blks) if rng.random() < 0.7 else 'aes.seq %s - %s' % (hx(k1), blks))
+    elif r < 0.75:
+        h = rng.choice(HOSTS); pt = rng.choice(PORTS) if rng.random() < 0.6 else str(rng.choice([rng.randrange(0, 70000), rng.getrandbits(33), rng.getrandbits(64)]))
+        s = bytearray((h + ':' + pt).encode()) if rng.random() < 0.8 else bytearray(h.encode())
+        if len(s) and rng.random() < 0.25: s[rng.randrange(len(s))] = rng.choice(b'@:%/ -+0')
+        ops.append('url.host %s' % hx(s))
+    elif r < 0.85:
+        al = b'uh.%4@:'
+        mk = lambda: bytes(rng.choice(al[:4] if rng.random() < 0.7 else al) for _ in range(rng.randrange(0, 4)))
+        ops.append('url.mkhost %s %s %s %d' % (hx(mk()), hx(mk()), hx(mk()), rng.choice([0, 80, 65535, rng.randrange(65536)])))
+    else:
+        x = rbytes(rng, rng.choice([1, 2, 3, 6, 9]))
+        t = bytearray(_b64.b64encode(x))
+        if rng.random() < 0.5: t.insert(rng.randrange(len(t) + 1), 0)
+        ops.append(rng.choice(['b64.decz %s %d' % (hx(t), len(x)), 'b64.declenz %s' % hx(t), 'b64.decapp %s %s' % (hx(t), hx(rbytes(rng, rng.randrange(0, 3))))]))
 
 
 # ------------------------------------------------------------------------------------------ structured / adversarial families
@@ -533,6 +582,153 @@ def gen_own_output(tier):
     for c in _batched(ops):
         yield c
 
+
+# ------------------------------------------------------------------------------------------ memory placement (round 7, lesson c)
+# Every entry point that takes a raw pointer is driven with its input block starting at each alignment 0..7, right-aligned
+# against the end of an exactly sized heap allocation (ASan redzone directly behind the last byte) and left-aligned after a
+# canary, for lengths 0..3, 4±1, 8±1, 16±1, 63..65; output blocks are placed the same way (at another alignment). The models
+# are placement independent, so every placement must give the model's answer. The std::string / std::vector entry points own
+# their storage (allocator-aligned), there is nothing to place. Deterministic, both tiers.
+PLACE_LENS = [0, 1, 2, 3, 4, 5, 7, 8, 9, 15, 16, 17, 63, 64, 65]
+
+
+def _pdata(ln, salt):
+    return bytes((i * 73 + salt * 29 + ln * 7 + 1) & 0xff for i in range(ln))
+
+
+def placement_ops(mode, ai, ln):
+    ao = (ai + 3) % 8
+    sfx = ' @%s%d%d' % (mode, ai, ao)
+    x = _pdata(ln, ai)
+    e = _b64.b64encode(x)
+    ops = [crc32_op(x), 'crc32 %s %d' % (hx(x), (ln * 0x01000193 + ai) & 0xffffffff), 'crc16 %s 65535' % hx(x), 'crc16 %s %d' % (hx(x), ln * 257 + ai),
+           'sum8 %s' % hx(x), 'sum16 %s' % hx(x), md5_op(x), md5_op(x, (ln // 2,)), 'md5.seq u:%s f' % hx(x),
+           'crc32.chain %s %s 4294967295' % (hx(x[:ln // 3]), hx(x[ln // 3:])), 'crc16.chain %s %s 65535' % (hx(x[:ln // 2]), hx(x[ln // 2:])),
+           'b64.declen %s' % hx(e), 'b64.declenz %s' % hx(e), 'b64.dec %s %d' % (hx(e), ln), 'b64.decz %s %d' % (hx(e), ln),
+           'b64.dec %s %d' % (hx(x), ln), 'b64.declen %s' % hx(x),            # raw bytes as (mostly invalid) Base64 text of that length
+           'hex.enc %s %d -' % (hx(x), ai & 1), 'hex.rt %s %d -' % (hx(x), 1 - (ai & 1)), 'hex.rt %s 0 20' % hx(x),
+           'hex.decbuf %s %d' % (hx(x.hex().encode()), ln), 'hex.decbuf %s %d' % (hx(x.hex().encode()), ln + 1),
+           'si.parse %s' % hx(x), 'si.parse %s' % hx(bytes([0x80 | b for b in x[:-1]]) + bytes([b & 0x7f for b in x[-1:]]))]
+    if ln:
+        el = (ln + 2) // 3 * 4
+        ops += ['b64.enc %s ref=%s' % (hx(x), hx(e)), 'b64.encbuf %s %d' % (hx(x), el), 'b64.encbuf %s %d' % (hx(x), el - 1), 'b64.rt %s' % hx(x),
+                'b64.dec %s %d' % (hx(e), ln - 1), 'hex.decbuf %s %d' % (hx(x.hex().encode()), ln - 1)]
+    # scalable integer: a value needing min(ln,10) bytes into a block of exactly ln bytes (ln = 0: refused)
+    need = max(1, min(ln, 10))
+    v = SI_TABLE_MAX[need - 1] if need <= 9 else (1 << 64) - 1 - ai
+    ops += ['si.dump %d %d' % (v, ln), 'si.dump %d %d' % (v, need - 1), 'si.rt %d' % v]
+    # serializer / deserializer on placed blocks
+    for en in 'bl':
+        ops += ['ser.raw %d %s' % (ln, en), 'ser.bytes %s' % hx(x[:ln // 2]), 'ser.int 2 513', 'ser.pod %s' % hx(x[:3]), 'ser.int 8 72623859790382856',
+                'ser.int 4 16909060', 'ser.int 1 255', 'ser.bytes %s' % hx(x), 'ser.big 18446744073709551615',
+                'des.new %s %s' % (hx(x), en), 'des.int 1', 'des.int 2', 'des.pod 3', 'des.int 4', 'des.nocopy 2', 'des.int 8', 'des.bytes %d' % (ln // 2),
+                'des.check 1', 'des.bytes %d' % ln, 'des.setpos 0', 'des.bytes %d' % ln, 'des.pod 1', 'des.skip 18446744073709551615',
+                'ser.rt %s r:%s i4:305419896 p:%s s2:-2' % (en, hx(x), hx(x[:5]))]
+    if ln in (15, 16, 17):          # AES has only 16-byte blocks: alignment is what varies
+        k = _pdata(16, ai + 8); blk = _pdata(16, ln)
+        ops += ['aes.enc %s %s' % (hx(k), hx(blk)), 'aes.dec %s %s' % (hx(k), hx(blk)), 'aes.rt %s %s' % (hx(k), hx(blk)),
+                'aes.seq %s %s %s %s' % (hx(k), hx(blk), hx(blk), hx(k)), 'aes.seq - %s %s' % (hx(k), hx(blk))]
+    return [o + sfx for o in ops]
+
+
+def gen_placement(tier):
+    for mode in 'RL':
+        for ai in range(8):
+            for ln in PLACE_LENS:
+                yield placement_ops(mode, ai, ln)
+
+
+# ------------------------------------------------------------------------------------------ width / sign boundaries (lesson a)
+PORTS = ['0', '1', '80', '00080', '65535', '65536', '65537', '65616', '99999', '131071', '2147483647', '2147483648', '2147483649',
+         '4294967295', '4294967296', '4294967376', '99999999999', '9223372036854775807', '9223372036854775808', '18446744073709551615',
+         '18446744073709551616', '-1', '-0', '-80', '-65535', '-65536', '-65537', '-2147483648', '-2147483649', '+80', '+-80', ' 80', '\t80', '80 ',
+         '80abc', '0x50', '8 0', '', '-', '+', ' ', 'abc', '80:90', '65536:1', '1e3', '%38%30']
+HOSTS = ['h', 'example.com', '', 'u@h', 'u:p@h', 'u:@h', ':p@h', '@h', 'u@', 'a@b@c', 'u:p:q@h', '%41%42', 'u%40x:p%3Aq@h%2Fz', '%zz', 'u@%zz', '%zz@h', 'u:%4@h',
+         'u%', '[::1]', 'h%00']
+
+
+def gen_width(tier):
+    ops = []
+    for h in HOSTS:
+        ops.append('url.host %s' % hx(h.encode()))
+        for pt in PORTS:
+            ops.append('url.host %s' % hx((h + ':' + pt).encode()))
+    for u in ('', 'u', 'u x', 'a%b', 'a:b', 'a@b'):
+        for pw in ('', 'p', 'p@q', 'p:q'):
+            for h in ('h', '', 'h.x', 'h:x', 'h%41'):
+                for port in (0, 1, 80, 9, 10, 99, 100, 32767, 32768, 65534, 65535):
+                    if (port in (0, 80, 65535)) or (u == 'u' and pw in ('', 'p') and h == 'h'):
+                        ops.append('url.mkhost %s %s %s %d' % (hx(u.encode()), hx(pw.encode()), hx(h.encode()), port))
+    for port in range(0, 65536, 4099):
+        ops.append('url.mkhost 75 70 68 %d' % port); ops.append('url.host %s' % hx(b'h:%d' % (port + 65536)))
+    # size_t arithmetic of the (de)serializer bounds checks: need_size on both sides of 2^31 / 2^32 / 2^63 / 2^64 - pos
+    BIG = [2 ** 31 - 1, 2 ** 31, 2 ** 32 - 1, 2 ** 32, 2 ** 63 - 1, 2 ** 63, 2 ** 64 - 8, 2 ** 64 - 5, 2 ** 64 - 4, 2 ** 64 - 3, 2 ** 64 - 2, 2 ** 64 - 1]
+    groups = []                      # stateful sequences: one case each
+    for en in 'bl':
+        for pos in (0, 1, 4, 7, 8):
+            g_ = ['des.new 0102030405060708 %s' % en, 'des.skip %d' % pos]
+            for b in BIG:
+                g_ += ['des.check %d' % b, 'des.skip %d' % b, 'des.nocopy %d' % b, 'des.bytes %d' % b, 'des.pod %d' % b, 'des.setpos %d' % b]
+            g_ += ['des.check %d' % (8 - pos), 'des.check %d' % (9 - pos), 'des.check 0', 'des.int 1']
+            g_ += ['ser.raw 8 %s' % en, 'ser.bytes %s' % hx(bytes(pos))]
+            for b in BIG:
+                g_ += ['ser.big %d' % b]
+            g_ += ['ser.big 9', 'ser.int 1 7']
+            groups.append(g_)
+        groups.append(['des.new - %s' % en, 'des.check 0', 'des.check 1', 'des.skip 18446744073709551615', 'des.setpos 0', 'des.nocopy 0', 'des.pod 0',
+                       'des.bytes 0'])
+    for g_ in groups:
+        yield g_
+    # signed / floating stream operators: static_cast<uintN_t>(intN_t) and back
+    for en in 'bl':
+        for w_ in (1, 2, 4, 8):
+            half = 1 << (8 * w_ - 1)
+            for v in (-half, -half + 1, -129, -128, -127, -2, -1, 0, 1, 127, 128, half - 2, half - 1):
+                if -half <= v < half:
+                    ops.append('ser.rt %s s%d:%d' % (en, w_, v))
+                    ops.append('ser.rt %s s%d:%d i%d:%d e:%s s%d:%d' % (en, w_, v, w_, v % (2 * half), 'l' if en == 'b' else 'b', w_, v))
+        for f4 in ('00000000', '00000080', '0000803f', '0000c07f', '0100c07f', '0000807f', '000080ff', '01000000', 'ffffffff', 'ffff7f7f', '12345678'):
+            ops.append('ser.rt %s f4:%s' % (en, f4)); ops.append('ser.rt %s i1:7 f4:%s s1:-7' % (en, f4))
+        for f8 in ('0000000000000000', '0000000000000080', '000000000000f03f', '000000000000f87f', '010000000000f07f', '000000000000f0ff',
+                   '0100000000000000', 'ffffffffffffffff', 'ffffffffffffef7f', '0123456789abcdef'):
+            ops.append('ser.rt %s f8:%s' % (en, f8)); ops.append('ser.rt %s f8:%s f4:0000c07f s8:-9223372036854775808' % (en, f8))
+    for c in _batched(ops, 48):
+        yield c
+
+
+# ------------------------------------------------------------------------------------------ laws of the stateful / chained entry points
+def gen_laws(tier):
+    ops = []
+    msg = bytes(range(1, 12))
+    for la in range(0, 6):
+        for lb in range(0, 6):
+            a, b = msg[:la], msg[la:la + lb]
+            for seed in (0xffffffff, 0, 0x12345678):
+                ops.append('crc32.chain %s %s %d' % (hx(a), hx(b), seed))
+            for seed in (0xffff, 0, 0x1d0f):
+                ops.append('crc16.chain %s %s %d' % (hx(a), hx(b), seed))
+    for ln in (63, 64, 65, 255, 256, 257):
+        x = _pdata(ln, 3)
+        for cut in (0, 1, ln // 2, ln - 1, ln):
+            ops.append('crc32.chain %s %s 4294967295' % (hx(x[:cut]), hx(x[cut:]))); ops.append('crc16.chain %s %s 65535' % (hx(x[:cut]), hx(x[cut:])))
+    # MD5 life cycle: update* finish is the only clean history; everything after the first finish aborts
+    for script in ('f', 'u:- f', 'u:61 f', 'u:61 u:6263 f', 'f f', 'f u:61', 'f u:-', 'u:61 f f', 'u:61 f u:62 f', 'u:61 f u:-', 'u:- u:- f f f',
+                   'u:%s f' % hx(_pdata(64, 1)), 'u:%s u:%s f u:00' % (hx(_pdata(55, 2)), hx(_pdata(9, 3))), 'u:%s f f' % hx(_pdata(56, 4))):
+        ops.append('md5.seq ' + script)
+    # AES: the object keeps nothing but the round keys: setKey replaces them all, blocks are independent, in-place is fine
+    k1, k2 = bytes(range(16)), bytes(range(0x10, 0x20))
+    b1, b2 = bytes.fromhex('00112233445566778899aabbccddeeff'), bytes(16)
+    ops += ['aes.seq %s - %s' % (hx(k1), hx(b1)), 'aes.seq %s %s %s' % (hx(k1), hx(k2), hx(b1)), 'aes.seq - %s %s' % (hx(k1), hx(b1)),
+            'aes.seq %s %s %s %s %s' % (hx(k2), hx(k1), hx(b1), hx(b2), hx(b1)), 'aes.seq %s %s %s' % (hx(k1), hx(k1), hx(b2)), 'aes.seq - - %s' % hx(b1)]
+    # Base64 C-string overloads (text ends at the first NUL) and decoding onto a vector that already holds data
+    for t in (b'QUJD', b'QUI=', b'QQ==', b'QUJDREVG', b'', b'QUJ', b'QU*D'):
+        ops += ['b64.decz %s %d' % (hx(t), 6), 'b64.declenz %s' % hx(t), 'b64.decapp %s -' % hx(t), 'b64.decapp %s 0102' % hx(t)]
+        for pos in range(len(t) + 1):
+            z = t[:pos] + b'\x00' + t[pos:]
+            ops += ['b64.decz %s 6' % hx(z), 'b64.declenz %s' % hx(z), 'b64.dec %s 6' % hx(z), 'b64.decapp %s ff' % hx(z)]
+    for c in _batched(ops, 48):
+        yield c
+
 def gen(rng, tier):
     n = 500 if tier == 'quick' else 6000
     # malformed stream: both sides answer bad-op
@@ -553,6 +749,12 @@ def gen(rng, tier):
     for c in gen_structured(tier):
         yield c
     for c in gen_own_output(tier):
+        yield c
+    for c in gen_placement(tier):
+        yield c
+    for c in gen_width(tier):
+        yield c
+    for c in gen_laws(tier):
         yield c
     vals = si_values(rng)
     if tier == 'thorough':
@@ -580,18 +782,22 @@ def gen(rng, tier):
         for b0 in range(0, 256, 16):
             yield ['url.rt %02x 0' % b for b in range(b0, b0 + 16)] + ['url.enc %02x 1' % b for b in range(b0, b0 + 16)] + \
                   ['hex.rt %02x 1 -' % b for b in range(b0, b0 + 16)] + ['url.dec 25%02x41' % b for b in range(b0, b0 + 16)]
-    gens = [gen_b64, gen_b64, lambda r, o: gen_si(r, o, vals), gen_hex, gen_ser, gen_ser, gen_crc, gen_url, gen_md5, gen_aes]
+    gens = [gen_b64, gen_b64, lambda r, o: gen_si(r, o, vals), gen_hex, gen_ser, gen_ser, gen_crc, gen_url, gen_md5, gen_aes, gen_misc]
     for _ in range(n):
         ops = []
         for _ in range(rng.choice([1, 2, 4, 8])):
             rng.choice(gens)(rng, ops)
+        # a third of the cases run at a random memory placement (one per op)
+        if rng.random() < 0.34:
+            ops = [o + ' @%s%d%d' % (rng.choice('RL'), rng.randrange(8), rng.randrange(8)) for o in ops]
         yield ops
 
 
 NT_TAGS = ('b64-cap-exact', 'b64-cap-short', 'b64-invalid-char', 'b64-hi-byte', 'b64-inner-pad', 'b64-encbuf-exact',
            'si-parse-cont9', 'si-parse-cont1', '-unterminated', 'si-dump-', 'hex-decbuf-exc', 'hex-decvec-', 'ser-rt-',
            'des-int', 'ser-int', 'url-dec-exc', 'url-dec-escapes', 'md5-pieces2', 'md5-pieces3', 'md5-pieces4', 'md5-pieces5',
-           'md5-pieces6', 'md5-pieces7', 'md5-pieces8', 'md5-pieces9', 'md5-len-mod64-ge56')
+           'md5-pieces6', 'md5-pieces7', 'md5-pieces8', 'md5-pieces9', 'md5-len-mod64-ge56',
+           'b64-cstr', 'b64-append', 'des-check-', 'ser-big', 'crc-chain-', 'url-host-', 'url-mkhost-', 'md5-seq-', 'aes-seq-')
 
 
 def nontrivial(ops, model_lines):
